@@ -39,15 +39,11 @@ def hostile_cfg(rng):
 def syntax_text(g):
     """syntax part without header and actions (the token driver does not need h)"""
     out = []
-    order = []
-    for (l, b, k, a) in g.prods:
-        if l not in order:
-            order.append(l)
-    for l in order:
+    for (l, idxs) in g.runs():
         alts = []
-        for (l2, b, k, a) in g.prods:
-            if l2 == l:
-                alts.append("empty" if k == "empty" else ("error " if k == "error" else "") + " ".join(b))
+        for i in idxs:
+            (l2, b, k, a) = g.prods[i]
+            alts.append("empty" if k == "empty" else ("error " if k == "error" else "") + " ".join(b))
         out.append("%s : %s ;" % (l, " | ".join(alts)))
     return "\n".join(out) + "\n"
 
